@@ -28,12 +28,11 @@ def names (tr : List (String × List String)) : List String := tr.map (·.1)
 theorem convertElapsed_tr (l : S_querylog_FileSystem) (el ms : Int) :
     convertElapsed l el ms = (Agd.Record.convertElapsed ms : Int) := by
   unfold convertElapsed Agd.Record.convertElapsed
-  by_cases h1 : ms < 0
-  · simp [h1]
-  · by_cases h2 : ms > 4294967295
-    · simp [h1, h2]
-    · have : goWrapU 4294967296 ms = ms := goWrapU_of_range (by omega) (by omega)
-      simp [h1, h2, this]; omega
+  simp only [decide_eq_true_eq]
+  repeat' split
+  all_goals first
+    | omega
+    | (rw [goWrapU_of_range (by omega) (by omega)]; omega)
 
 example : convertElapsed ⟨"f"⟩ 0 5000000000 = 4294967295 ∧ convertElapsed ⟨"f"⟩ 0 (-3) = 0 ∧ convertElapsed ⟨"f"⟩ 0 17 = 17 := by
   decide
